@@ -15,13 +15,25 @@ tied to the Rust code by the correspondence check `harness/src/bin/c16.rs`. Spec
 `Spec/GqlTokens.lean`.
 
 The property is the composition   parse (cook (between-back-ticks (module))) = strip (checked document).
-Proved here, for ALL inputs: the template layer (`template_roundtrip`, `template_no_break`, with the bridge
-`printString_no_cr`), the quoted string-literal layer (`print_string_roundtrip_partial`), the stripping layer
-(`strip_exact`, `strip_model_exact`) and the Type sub-language at token level (`print_tokens_type`,
-`C16_roundtrip_partial`), Value, Directive and the token streams of executable definitions. Whole documents (token streams
-of type-system definitions, parse-back of every definition, the block form under indentation, the composition
-`C16_roundtrip_tokens_*`) are in `Props/C16Tokens.lean`; the character level (`C16_roundtrip_text_*`) is in `Props/C16Text.lean`. What is NOT proved is listed in the OPEN blocks and is carried by
-K/O only.
+Proved here, for ALL inputs that satisfy the hypotheses stated with each theorem: the template layer (`template_roundtrip`
+under `NoCR`, `template_no_break`, with the bridge `printQuoted_no_cr`; the full bridge `printString_no_cr` is in
+`Lemmas/TokChunks.lean`), the string-literal layer (`print_string_roundtrip_partial`, `print_block_*`,
+`print_string_roundtrip_exact`), the stripping layer (`strip_exact`, `strip_model_exact`) and the Type sub-language at token
+level (`print_tokens_type`, `C16_roundtrip_partial`), Value, Directive and the token streams of executable definitions. Whole
+documents (token streams of type-system definitions, parse-back of every definition, the block form under indentation, the
+composition `C16_roundtrip_tokens_*`) are in `Props/C16Tokens.lean`; the character level (`C16_roundtrip_text_*`) is in
+`Props/C16Text.lean` — both over the SPECIFICATION's lexer and parser; the composition over the model of nitrogql's OWN parser
+(`C16_roundtrip_own_parser_*`, `server_module_roundtrip_own`) is in `Props/C16Own.lean`. What is NOT proved is listed in the
+OPEN blocks and is carried by K/O only.
+
+The `*_counterexample` theorems are of two kinds. Open findings of the CODE (known-findings.txt): the double quote
+(`print_string_roundtrip_counterexample`), the block form of a string with `BlockStringValue s ≠ s`
+(`print_string_block_counterexample`), the member-less union (`print_tokens_union_counterexample` in C16Tokens). Inherent side
+conditions, NOT defects: `template_cr_counterexample` (ECMAScript cooking turns a raw CR into LF; the printer never hands a CR
+to the writer — string literals by `printQuoted_no_cr` / `canBlock`, names by `nameOK`), `template_chunks_counterexample`
+(a chunk sequence the printer does not produce when names are `nameOK`: `printer_chunks_safe_*`),
+`C16_roundtrip_counterexample` and `C16_roundtrip_value_counterexample` (trees
+of the AST that no GraphQL text denotes: non-null of non-null, an enum value named `true`).
 -/
 namespace NitroVerif.C16
 open NitroVerif.Gql NitroVerif.JsTemplate NitroVerif.Cook NitroVerif.GqlPrint NitroVerif.GqlString
@@ -402,7 +414,7 @@ theorem C16_roundtrip_directive (d : Directive) (hwf : GqlTokens.wfFields d.args
     simp only [Value.erasePosFields] at h
     simp [GqlTokens.argsToks, GqlTokens.parseDirective, h, Value.erasePosFields]
 
-/-! ## 6. token level: executable definitions (token streams; no parse-back theorem) -/
+/-! ## 6. token level: executable definitions (token streams here; parse-back: `C16_parse_*` in `Props/C16Tokens.lean`) -/
 
 /-- For EVERY selection (fields with aliases, arguments, directives and nested selection sets; fragment spreads;
     inline fragments — arbitrary nesting): the significant tokens printed are the canonical token stream. -/
@@ -459,8 +471,19 @@ OPEN — carried by K/O only (never claimed as proved)
         an object type without fields and directives, …: see the OPEN block of `Props/C07.lean`);
       - `#import` lines of executable documents (comments for GraphQL; not covered by C07 either).
     For those O evaluates the property on the real parser for generated schemas and operations; K ties every model in
-    these files to the code. Over the SPECIFICATION's lexer and parser the block form and all control characters are
-    covered (`C16_roundtrip_text_*`).
+    these files to the code. Over the SPECIFICATION's lexer and parser the block form (when `BlockStringValue s = s`) and
+    all control characters are covered (`C16_roundtrip_text_*`).
+  * over the specification's lexer and parser (`C16_roundtrip_tokens_*`, `C16_roundtrip_text_*`,
+    `server_module_roundtrip_tokens` / `_text`), the documents OUTSIDE the hypotheses: `strsOK` (a double quote in the quoted
+    form; a block-printed string with `BlockStringValue s ≠ s` — the two open string findings), `itemUnionOK` (a union
+    without members — open finding for extensions), `lexemesOK` (names / numbers that are not GraphQL Names / numbers),
+    `wfDoc` / `wfTsDoc` (trees no text denotes; `#import` lines). The specification's lexer and parser are never run against
+    the real parser: O reads with the real parser after re-quoting block strings by their specification value.
+  * that a checked schema satisfies `OnlyOnScalars` / `OnlyOnObjects` (hypotheses of `strip_exact`, `strip_model_exact` and
+    of every `server_module_roundtrip_*`): not proved of the checker; O's `server` stream runs accepted projects.
+  * the ORDERED plugin list of generate.rs (fold over the plugins): `serverGraphqlOutput` takes one Boolean for the model
+    plugin; the fold is in `Driver/C16.lean` (`runtimeServerSchema`) and compared by K only.
+  * ECMAScript: `Spec/Cook.lean` is a hand-written model of template-literal cooking; no JavaScript engine is run.
 -/
 
 end NitroVerif.C16
